@@ -148,6 +148,14 @@ func Markers(env map[string]string, quick bool) []string {
 	// os.name / python_implementation are outside the property's expression grammar)
 	atoms = append(atoms, `python_version>="3"`, `python_version  >=  '3'`,
 		`python_version>='3'`, `os_name=="posix"`, `extra=="x"`, `extra== 'x'`, `python_version not  in "3.9 3.10"`, `"2.7" not in python_version`)
+	// literals that differ only in the white space inside the quotes (adjacent, so that one resolver sees both)
+	if pv := env["platform_version"]; strings.Count(pv, " ") >= 2 {
+		w := strings.Fields(pv)
+		one, two := w[1]+" "+w[2], w[1]+"  "+w[2]
+		atoms = append(atoms, `"`+one+`" in platform_version`, `"`+two+`" in platform_version`, `"`+two+`" not in platform_version`, `"`+one+`" not in platform_version`,
+			`platform_version == "`+pv+`"`, `platform_version == "`+strings.Replace(pv, " ", "  ", 1)+`"`, `platform_version != "`+strings.Replace(pv, " ", "  ", 1)+`"`, `platform_version != "`+pv+`"`,
+			`"`+one+`"  in  platform_version`, `"`+one+"\t\tin platform_version"+``)
+	}
 	out := append([]string{}, atoms...)
 	small := []string{`python_version >= "3"`, `python_version < "3"`, `os_name == "posix"`, `os_name == "nt"`, `extra == "x"`, `extra == "y"`, `sys_platform != "win32"`, `python_full_version ~= "3.9.0"`,
 		`"linux" in sys_platform`, `platform_machine not in "x86_64 arm64"`, `implementation_name == "cpython"`, `python_version in "3.8 3.9"`}
